@@ -77,6 +77,17 @@ Definition rekey_ok (r : list Z) (f : forest_t) : Prop :=
   StronglySorted Z.lt r /\
   forall w, In w r -> w < first_of_forest f /\ exists u, sub_of f u /\ node_key u = (w, 1).
 
+(** the re-keyed versions after [n] deleteVersion calls *)
+Fixpoint rk_run (n : nat) (fc : forest_t) (r : list Z) : list Z :=
+  match n with
+  | O => r
+  | S n =>
+      match fc with
+      | (v, _) :: (((_, rn) :: _) as f') => rk_run n f' (rk_next v rn r)
+      | _ => r
+      end
+  end.
+
 Section Range.
   Variable H : bytes -> bytes.
   Variable f0 : forest_t.
@@ -93,25 +104,26 @@ Section Range.
   Theorem delete_range_ok : forall (n : nat) fc done v p c r,
     f0 = done ++ fc -> map fst fc = zseq v (length fc) -> (n < length fc)%nat ->
     ST f0 p c fc r v ->
-    exists p' c' r', delete_range H fuel (zseq v n) p c = POk p' /\
-                     ST f0 p' c' (skipn n fc) r' (v + Z.of_nat n).
+    exists p' c', delete_range H fuel (zseq v n) p c = POk p' /\
+                  ST f0 p' c' (skipn n fc) (rk_run n fc r) (v + Z.of_nat n).
   Proof.
     induction n as [|n IH]; intros fc done v p c r Suf Hz Ln HS.
-    - exists p, c, r. cbn [zseq delete_range skipn]. split; [reflexivity|].
+    - exists p, c. cbn [zseq delete_range skipn rk_run]. split; [reflexivity|].
       replace (v + Z.of_nat 0) with v by lia. exact HS.
     - destruct fc as [|[v0 rv] [|[v1 rn] f'']]; cbn [length] in Ln; try lia.
       assert (E0 : v0 = v /\ v1 = v + 1).
       { cbn [map fst length zseq] in Hz. injection Hz as A B _. auto. }
       destruct E0 as [-> ->].
       destruct (delete_version_ok H f0 iv FI ND OK0 WF0 NC0 fuel Hfuel v rv rn f'' done Suf Hz p c r HS)
-        as (p1 & c1 & r1 & E1 & HS1).
+        as (p1 & c1 & E1 & HS1).
       cbn [zseq delete_range]. rewrite E1.
-      destruct (IH ((v + 1, rn) :: f'') (done ++ [(v, rv)]) (v + 1) p1 c1 r1) as (p' & c' & r' & E' & HS').
+      destruct (IH ((v + 1, rn) :: f'') (done ++ [(v, rv)]) (v + 1) p1 c1 (rk_next v rn r))
+        as (p' & c' & E' & HS').
       + rewrite Suf, <- app_assoc. reflexivity.
       + cbn [map fst length zseq] in Hz |- *. injection Hz as Hz'. rewrite Hz'. reflexivity.
       + cbn [length]. lia.
       + exact HS1.
-      + exists p', c', r'. split; [exact E'|]. cbn [skipn].
+      + exists p', c'. split; [exact E'|]. cbn [skipn rk_run].
         replace (v + Z.of_nat (S n)) with (v + 1 + Z.of_nat n) by lia. exact HS'.
   Qed.
 
